@@ -185,11 +185,14 @@ struct filler<1>
     template <typename Container, typename Tuple>
     void operator()(Container& hist, Tuple& lower, Tuple& upper, std::size_t bin_width = 1)
     {
+        // create the keys of the range without disturbing counts that are already there (accumulate);
+        // divide in the key's own signedness (a negative key must not be divided as std::size_t)
+        auto const width = static_cast<std::ptrdiff_t>(bin_width);
         for (auto i = std::get<0>(lower); static_cast<std::size_t>(std::get<0>(upper) - i) >= bin_width; i += bin_width)
         {
-            hist(i / bin_width) = 0;
+            hist(i / width) += 0;
         }
-        hist(std::get<0>(upper) / bin_width) = 0;
+        hist(std::get<0>(upper) / width) += 0;
     }
 };
 
@@ -427,7 +430,8 @@ public:
                     continue;
                 auto scaled_px = src_it[src_x];
                 static_for_each(scaled_px, [&](channel_t& ch) {
-                    ch = ch / bin_width;
+                    // divide in the channel's own signedness (a negative channel must not be divided as std::size_t)
+                    ch = static_cast<channel_t>(ch / static_cast<std::ptrdiff_t>(bin_width));
                 });
                 auto key = key_from_pixel<Dimensions...>(scaled_px);
                 if (!setlimits ||
